@@ -85,4 +85,17 @@ PROPS["C15"] = dict(
     trusted=["tk.VNet virtual-time network (datagram sizes are what the library hands to PacketConn.WriteTo)"],
 )
 
+PROPS["C06"] = dict(
+    technique="Coq proofs (induction over the splitting loop and the dynamic-record-size ramp, deframing invariant over arbitrarily chunked transports, prefix invariant of buffered reads) on a model of the tlcp application-data path; vm_compute correspondence predicting the exact record lengths on the wire",
+    level_text="Theorems for every write-size list, transport segmentation and read-buffer list (stream identity, 16384-byte plaintext and 16384+2048 ciphertext bounds, "
+               "ramp closed form) proved in Coq; the model must predict the exact sequence of record lengths on the wire (ramp, 128 KiB boost, both cipher modes) "
+               "and of Read results of real TLCP connections; a property-level predicate (exact delivery, full write lengths, EOF after all data, size limits) is "
+               "evaluated on the implementation's output.",
+    level_note="Trusted: Coq kernel + vm_compute; hand-written model tied by correspondence; record protection is abstract here (C04 checks it against the standard, C05 its failure behaviour).",
+    code_names={1: "stream-not-delivered-exactly", 2: "write-did-not-report-full-length", 3: "no-clean-eof-after-close", 4: "ciphertext-above-16384+2048",
+                5: "plaintext-above-16384", 6: "bytes-lost-or-duplicated", "hang": "hang"},
+    assumptions=["unmodified transport (every byte written arrives, in order)"],
+    trusted=["tk.Wire in-memory stream with segmentation"],
+)
+
 NOT_YET = {}
